@@ -50,6 +50,8 @@ pub trait Observer {
     fn worker_starting(&self, _idx: usize) {}
     /// the server task is about to join the accept thread
     fn accept_join(&self, _accept_exited: bool) {}
+    /// an interest was queued for the accept loop; `queue` is the queue right after the push
+    fn queue_pushed(&self, _queue: &[String]) {}
 }
 
 struct WorkerSlot {
@@ -121,6 +123,14 @@ pub(crate) fn step_after_poll(
 
 pub(crate) fn note_accept_exit() {
     EXITED.with(|c| c.set(true));
+}
+
+pub(crate) fn queue_pushed(queue: &crate::waker_queue::WakerQueue) {
+    if in_thread() {
+        if let Some(obs) = observer() {
+            obs.queue_pushed(&crate::waker_queue::verif_queue::snapshot(queue));
+        }
+    }
 }
 
 pub(crate) fn point(point: Point) {
